@@ -13,7 +13,8 @@ from concurrent.futures import ThreadPoolExecutor
 
 ROOT = os.path.dirname(os.path.dirname(os.path.abspath(__file__)))
 INC = os.path.join(ROOT, "seeded", "_incoming")
-ENV = dict(os.environ, CARGO_NET_OFFLINE="true")
+REPO = os.environ.get("BSV_REPO", "/repo")     # a scratch worktree when run under `vp run --with-repo` (BSV_REPO=$VP_RUN_REPO)
+ENV = dict(os.environ, CARGO_NET_OFFLINE="true", BSV_REPO=REPO, BSV_EVIDENCE=os.path.join(ROOT, "build", "evidence_seeded"))
 
 def sh(cmd, cwd=None, timeout=3600):
     p = subprocess.run(cmd, cwd=cwd, shell=True, stdout=subprocess.PIPE, stderr=subprocess.STDOUT, text=True, env=ENV, timeout=timeout)
@@ -135,15 +136,18 @@ RELATED = {"C01": ["C01"], "C02": ["C02"], "C03": ["C03", "C05"], "C04": ["C04"]
            "C07": ["C07", "C01"], "C08": ["C08"], "C09": ["C09"], "C10": ["C10"], "C11": ["C11"], "C12": ["C12"],
            "C13": ["C13"], "C14": ["C14"], "C15": ["C15"], "C16": ["C16"], "C17": ["C17"], "C18": ["C18"], "C19": ["C19"]}
 
-def detect(ids, tier="quick"):
+def detect(ids, tier="quick", matrix=False):
+    """apply each change to REPO, run the quick check of its property (matrix: of every property), undo.
+    The evidence of these runs goes to build/evidence_seeded, never to evidence/."""
     bsv = os.path.join(ROOT, "bsv")
+    allp = sorted(RELATED)
     for pid, v, d in mutants(ids):
         patch = os.path.join(d, "patch.diff")
-        sh("git -C /repo reset -q --hard HEAD && git -C /repo clean -fdq src tests")
-        rc, out = sh("git -C /repo apply %s 2>&1 || git -C /repo apply --3way %s" % (patch, patch))
+        sh("git -C %s reset -q --hard HEAD && git -C %s clean -fdq src tests" % (REPO, REPO))
+        rc, out = sh("git -C %s apply %s 2>&1 || git -C %s apply --3way %s" % (REPO, patch, REPO, patch))
         r = {"property": pid, "variant": v, "applies": rc == 0, "checks": {}}
         if rc == 0:
-            for c in RELATED[pid]:
+            for c in (allp if matrix else RELATED[pid]):
                 t0 = time.time()
                 rc2, out2 = sh("%s check %s --tier %s" % (bsv, c, tier))
                 lines = [l for l in out2.splitlines() if l.startswith(("VIOLATION", c + " "))]
@@ -155,8 +159,15 @@ def detect(ids, tier="quick"):
                         r["checks"][c]["replay_head"] = open(rp).read().splitlines()[:4]
                     except OSError:
                         pass
-        sh("git -C /repo reset -q --hard HEAD && git -C /repo clean -fdq src tests")
+        sh("git -C %s reset -q --hard HEAD && git -C %s clean -fdq src tests" % (REPO, REPO))
         r["detected_by"] = [c for c, x in r["checks"].items() if x["exit"] == 1]
+        if matrix:
+            json.dump(r, open(os.path.join(d, "matrix.json"), "w"), indent=1)
+            print("matrix", pid, v, "alarms", r["detected_by"], flush=True)
+            for c in r["detected_by"]:
+                if c not in RELATED[pid]:
+                    print("   cross", c, r["checks"][c]["lines"][:1], r["checks"][c].get("replay_head", [])[1:3], flush=True)
+            continue
         json.dump(r, open(os.path.join(d, "detect.json"), "w"), indent=1)
         write_meta(pid, v, d)
         print("detect", pid, v, "detected_by", r["detected_by"], {c: x["lines"][:1] for c, x in r["checks"].items()}, flush=True)
@@ -170,6 +181,8 @@ def main():
         ids = [x for x in a[1:] if not x.startswith("--")]
         if "--thorough" in a: tier = "thorough"
         detect(ids, tier)
+    elif a and a[0] == "matrix":
+        detect([x for x in a[1:] if not x.startswith("--")], "quick", matrix=True)
     elif a and a[0] == "promote":
         promote()
     elif a and a[0] == "table":
